@@ -24,6 +24,8 @@ var pointNames = []string{
 	"op", // yield inserted by the harness between two operations of a task
 	"done",
 	"file.blockread",
+	"storage.rlocked",
+	"storage.wlocked",
 }
 
 // Point ids.
@@ -42,6 +44,8 @@ const (
 	POp
 	PDone
 	PFileBlockRead
+	PStorageRLocked
+	PStorageWLocked
 	numPoints
 )
 
@@ -100,11 +104,16 @@ type task struct {
 	panicked bool
 	panicVal string
 
+	// self-probe command and answer (see selfProbe)
+	cmdProbe bool
+	probeOK  bool
+
 	// scheduler-private
 	pid      int   // point id of the mailbox
 	missIdx  int64 // storage index this task is materialising, valid if inMiss
 	inMiss   bool
 	prio     int
+	holds    int // locks this task holds according to the hook events
 	finished chan struct{}
 }
 
@@ -172,6 +181,7 @@ type Probes struct {
 	PoolHandoff        int // a pooled request object was seen by two different tasks
 	Preemptions        int // scheduling steps that switched task while the previous one was still enabled
 	MaxEnabled         int
+	TrackingCorrected  int // tracking said "held" but the real lock was free (code unlocks earlier than its hooks say)
 	InFlightAtFault    int
 }
 
@@ -214,8 +224,11 @@ type Sched struct {
 	rwWriter  map[any]int
 	rwReaders map[any]int
 
-	objIDs   map[any]uint16
-	poolSeen map[any]int
+	// probeMemo: locks confirmed held by a delegated probe; valid until a
+	// task that holds some lock runs again
+	probeMemo map[any]bool
+	objIDs    map[any]uint16
+	poolSeen  map[any]int
 
 	res       RunResult
 	pctChange []int
@@ -234,7 +247,15 @@ func (s *Sched) yieldHook(point string, obj any, n int64) {
 	t := s.cur
 	t.point, t.obj, t.n = point, obj, n
 	s.Gate.Notify()
-	s.Gate.Park(t.id)
+	for {
+		s.Gate.Park(t.id)
+		if !t.cmdProbe {
+			return
+		}
+		t.cmdProbe = false
+		t.probeOK = realProbe(obj, point == "storage.rlock")
+		s.Gate.Notify()
+	}
 }
 
 //go:norace
@@ -287,6 +308,7 @@ func (s *Sched) Run(bodies []func(t *TaskCtx)) *RunResult {
 	s.rwWriter = map[any]int{}
 	s.rwReaders = map[any]int{}
 	s.objIDs = map[any]uint16{}
+	s.probeMemo = map[any]bool{}
 	s.poolSeen = map[any]int{}
 	s.res = RunResult{}
 	if err := s.Gate.Init(n); err != nil {
@@ -405,6 +427,9 @@ func (s *Sched) Run(bodies []func(t *TaskCtx)) *RunResult {
 		if last != nil && t != last && len(enabled) > 0 && enabled[0] == last {
 			s.res.Probes.Preemptions++
 		}
+		if t.holds > 0 && len(s.probeMemo) > 0 {
+			s.probeMemo = map[any]bool{}
+		}
 		s.acquire(t)
 		s.step = step
 		s.release(t)
@@ -506,35 +531,91 @@ func (s *Sched) guard(t *task) bool {
 		return true
 	}
 	if s.LockMode == LockProbe {
-		if t.pid == PStorageRLock {
-			if l, ok := obj.(tryRLocker); ok {
-				if !l.TryRLock() {
-					return false
-				}
-				l.RUnlock()
-			}
-			return true
-		}
-		if l, ok := obj.(tryLocker); ok {
-			if !l.TryLock() {
-				return false
-			}
-			l.Unlock()
-		}
-		return true
+		return realProbe(obj, t.pid == PStorageRLock)
 	}
+	held := false
 	switch t.pid {
 	case PStorageRLock:
 		_, w := s.rwWriter[obj]
-		return !w
+		held = w
 	case PStorageLock:
 		_, w := s.rwWriter[obj]
-		return !w && s.rwReaders[obj] == 0
+		held = w || s.rwReaders[obj] != 0
 	default:
-		_, h := s.mutexHeld[obj]
-		return !h
+		_, held = s.mutexHeld[obj]
 	}
+	if !held {
+		return true
+	}
+	if s.probeMemo[obj] {
+		// confirmed held since, and no lock holder has run in between:
+		// nothing can have been released
+		return false
+	}
+	// The hook events say the lock is held.  On code whose locking matches
+	// its hooks that is the truth, the confirmation below fails without
+	// touching any race-detector state (a failed TryLock synchronises
+	// nothing), and the task stays disabled.  If a change made the code
+	// release the lock earlier than its hooks say, the confirmation succeeds
+	// and the task is enabled, exactly as the probing mode would do.  The
+	// confirmation is performed by the parked task itself, so the scheduler
+	// goroutine never acquires anybody's vector clock.
+	if s.selfProbe(t) {
+		s.res.Probes.TrackingCorrected++
+		switch t.pid {
+		case PStorageRLock, PStorageLock:
+			delete(s.rwWriter, obj)
+			if t.pid == PStorageLock {
+				delete(s.rwReaders, obj)
+			}
+		default:
+			delete(s.mutexHeld, obj)
+		}
+		return true
+	}
+	s.probeMemo[obj] = true
+	return false
 }
+
+func realProbe(obj any, read bool) bool {
+	if read {
+		if l, ok := obj.(tryRLocker); ok {
+			if !l.TryRLock() {
+				return false
+			}
+			l.RUnlock()
+		}
+		return true
+	}
+	if l, ok := obj.(tryLocker); ok {
+		if !l.TryLock() {
+			return false
+		}
+		l.Unlock()
+	}
+	return true
+}
+
+// selfProbe lets the parked task itself probe the lock it is parked in front
+// of, on its own goroutine, and park again.  The task reached the lock
+// through the program's own synchronisation, so its TryLock is ordered after
+// the lock's creation exactly as its real Lock would be (a probe from any
+// other goroutine would be reported as racing with the initialisation of a
+// lock created by a task); a failed TryLock synchronises nothing.
+func (s *Sched) selfProbe(t *task) bool {
+	s.sendProbe(t)
+	return s.probeResult(t)
+}
+
+//go:norace
+func (s *Sched) sendProbe(t *task) {
+	t.cmdProbe = true
+	s.Gate.Wake(t.id)
+	s.Gate.WaitNotify()
+}
+
+//go:norace
+func (s *Sched) probeResult(t *task) bool { return t.probeOK }
 
 // acquire records, for LockTrack, that t is about to take the lock it is
 // parked in front of.  It is also maintained in LockProbe mode (cheap), where
@@ -546,14 +627,20 @@ func (s *Sched) acquire(t *task) {
 	switch t.pid {
 	case PStorageRLock:
 		s.rwReaders[t.obj]++
+		t.holds++
 	case PStorageLock:
 		s.rwWriter[t.obj] = t.id
+		t.holds++
 	case PFileLock, PRuleLock:
 		s.mutexHeld[t.obj] = t.id
+		t.holds++
 	}
 }
 
 func (s *Sched) applyNote(t *task, nt note) {
+	if t.holds > 0 {
+		t.holds--
+	}
 	switch nt.point {
 	case "storage.runlocked":
 		if s.rwReaders[nt.obj] > 0 {
